@@ -7,7 +7,8 @@ V = Path(__file__).resolve().parents[1]
 pid = sys.argv[1]
 n = sys.argv[2] if len(sys.argv) > 2 else "3"
 p = next(json.loads(l) for l in open(V / "properties.jsonl") if json.loads(l)["id"] == pid)
-d = Path(f"/tmp/benign/{pid}")
+rnd = sys.argv[3] if len(sys.argv) > 3 else ""
+d = Path(f"/tmp/benign/{pid}{rnd}")
 d.mkdir(parents=True, exist_ok=True)
 wt = d / "wt"
 txt = f"""You are testing whether a verification harness for the Python library sdrobert/pydrobert-pytorch (source under
@@ -57,5 +58,17 @@ Restore the worktree to pristine between changes (`git -C {wt} checkout -- .`). 
     git -C /repo worktree remove --force {wt}
 (keep the {d}/out directory). Final answer: a short list of the changes (one line each).
 """
+if rnd:
+    prev = sorted((V / "benign").glob(f"{pid}-*"))
+    avoid = "\n".join("  - " + (json.load(open(x / "meta.json")).get("title") or x.name)[:200] for x in prev)
+    txt = txt.replace("Be honest and careful:", "Earlier engineers already wrote these rewrites - do something DIFFERENT (other functions, other mechanisms):\n" + avoid +
+        "\nFor this round prefer: (i) a CORRECT fast path taken only above a size threshold or for particular dtypes / "
+        "layouts (with the slow path kept for the rest); (ii) CORRECT caching / memoisation with proper invalidation "
+        "(public attributes may be reassigned after construction, tensors edited in place, objects reused or pickled); "
+        "(iii) a different library API for the same effect (other torch ops, other file-system calls with the same "
+        "atomicity, pathlib vs os); (iv) a changed evaluation order of independent steps; (v) different-but-equivalent "
+        "intermediate dtype / memory layout (contiguous copy vs view) where the result is provably identical; (vi) an "
+        "optional argument's default moved (signature default vs `None` sentinel resolved inside) with identical "
+        "behaviour for omitted and explicit values.\n\nBe honest and careful:")
 (d / "PROMPT.txt").write_text(txt)
 print(d / "PROMPT.txt")
